@@ -54,6 +54,42 @@ def facts_judge(res, pid, concrete):
         res.samples.append(dict(violating_spans=[span(f) for f in bad[:5]]))
 
 
+# ---------------------------------------------------------------- C15 (source half)
+def special_c15(res, tier, seed, workdir, stats):
+    def concrete(f):
+        return f["kind"] in ("global", "extern_block") and not f["test"]
+    facts_judge(res, "C15", concrete)
+    threads_stage(res, tier, seed, workdir, stats)
+
+
+def threads_stage(res, tier, seed, workdir, stats):
+    """the same independent histories executed concurrently on 16 threads (each thread its own
+    handle table, hashers from shared-key builders included) must give exactly the outputs of the
+    sequential run"""
+    binp, blog = hh.build_runner("rel-std-base")
+    if binp is None:
+        return
+    info = hh.runner_info(binp)
+    r = random.Random(seed * 31337 + 5)
+    bs = [gen.interleave(r, P.sels_for(info), nh=r.randrange(2, 6), force=True) for _ in range(60 if tier == "quick" else 600)] + \
+         [gen.builders(r) for _ in range(60 if tier == "quick" else 600)]
+    cases = [b.case() for b in bs]
+    seq, _ = hh.run_real(binp, cases, workdir, "C15.threads.seq", shards=1)
+    par, crashed = hh.run_real(binp, cases, workdir, "C15.threads.par", extra_args=["--threads=16"], shards=1)
+    bad = 0
+    for k, c in enumerate(cases):
+        if seq[k] != par[k]:
+            bad += 1
+            if bad <= 2:
+                d = hh.first_diff(seq[k], par[k])
+                res.replay(dict(kind="impl-violates-property", config="rel-std-base --threads=16",
+                                message=f"result differs between sequential and 16-thread concurrent execution at op `{c.ops[d][:80] if d is not None and d < len(c.ops) else '?'}`",
+                                ops=c.ops, sequential=seq[k], concurrent=par[k]))
+    res.n_oracle_fail += bad
+    res.evals += len(cases)
+    stats.append(dict(config="rel-std-base", threads=16, cases=len(cases), differing=bad, crashed=len(crashed)))
+
+
 # ---------------------------------------------------------------- C16
 def c16_concrete(f):
     if f["file"] not in PORTABLE_FILES:
@@ -168,7 +204,7 @@ def gen_c18(r, tier, info):
     sels = P.sels_for(info)
     std = info.get("std") == "1"
     cases = []
-    sizes = [0, 1, 31, 32, 33, 1000, 4096, 65536] + ([1 << 20, 4 << 20] if tier == "thorough" else [262144])
+    sizes = [0, 1, 31, 32, 33, 1000, 4096, 65536] + ([1 << 20] if tier == "thorough" else [262144])
     for sel in sels:
         for n in sizes:
             b = B(f"c18-{sel}-{n}", [sel, f"size={n}"])
@@ -493,4 +529,4 @@ def check_mod():
 
 
 T.PRE.update({"C16": pre_facts, "C17": pre_facts, "C18": pre_facts, "C15": pre_facts})
-T.SPECIAL.update({"C09": special_c09, "C03": special_c03, "C04": special_c04, "C08": special_c08, "C16": special_c16, "C17": special_c17, "C18": special_c18})
+T.SPECIAL.update({"C15": special_c15, "C09": special_c09, "C03": special_c03, "C04": special_c04, "C08": special_c08, "C16": special_c16, "C17": special_c17, "C18": special_c18})
